@@ -86,7 +86,6 @@ def run_check(prop, tier, seed, repo, jobfilter=None, procs=None):
             funcs.add(tuple(fn_))
         if r.get("undecided"):
             undecided.append(r)
-            continue
         mine = 0
         for ob in r["obligations"]:
             attr = runner.attribute(r, ob)
